@@ -237,6 +237,21 @@ pub fn ind_clone<S: Src, const C: usize>(s: &mut S) {
     s.reached("c13.ind_clone");
 }
 
+/// clone of a table with a CONCRETE occupancy pattern (the copy's capacity may depend on the entry
+/// count; a solver-chosen count would make an allocation size symbolic): handles and values
+/// solver-chosen, the copy is a faithful map with the representation invariant (in particular a
+/// free slot for every probe sequence to end in) and every lookup terminates
+pub fn ind_clone_mask<S: Src, const C: usize, const MASK: u32>(s: &mut S) {
+    let (t, pre) = sym_state_mask::<S, C>(s, Some(MASK));
+    let c = t.clone();
+    let q = nz(s);
+    assert!(c.get(hnd(q)).copied() == pre.lookup(q), "C13.clone.same_content");
+    assert!(c.contains(hnd(q)) == pre.lookup(q).is_some(), "C13.clone.contains_agrees");
+    assert!(c.len() == pre.n, "C13.clone.len");
+    check_inv(&c, s);
+    s.reached("c13.ind_clone_mask");
+}
+
 pub fn ind_reserve<S: Src, const C: usize, const ADD: usize, const MASK: u32>(s: &mut S) {
     // concrete occupancy: reserve computes the new capacity from the entry count
     let (mut t, pre) = sym_state_mask::<S, C>(s, Some(MASK));
@@ -458,6 +473,8 @@ crate::harnesses! {
     c13_clear_c4 / 6 => ind_clear::<_, 4>;
     c13_clone_c4 / 6 => ind_clone::<_, 4>;
     c13_clone_c8 / 10 => ind_clone::<_, 8>;
+    c13_clone_c8_n4 / 10 => ind_clone_mask::<_, 8, 0b01100101>;
+    c13_clone_c4_n2 / 6 => ind_clone_mask::<_, 4, 0b0110>;
     c13_reserve_c4_2_noop / 6 => ind_reserve::<_, 4, 2, 0b0101>;
     c13_reserve_c4_3_m6 / 10 => ind_reserve::<_, 4, 3, 0b0110>;
     c13_reserve_c4_4_m9 / 18 => ind_reserve::<_, 4, 4, 0b1001>;
